@@ -527,6 +527,14 @@ func runReplayObject(t *testing.T, rep *vfutil.Report, prop string, raw json.Raw
 	switch ro.Check {
 	case "keys":
 		h.checkKeys(ch, ro.Path, nil)
+	case "builder":
+		if ro.Edge != nil {
+			st := ch.project(ch.l.AclState())
+			h.builderEdge(ch, ro.Path, st, AccEdge{Rec: *ro.Edge}, false)
+			if ro.Edge.Cs[0].K == "RequestAccept" {
+				h.builderEdge(ch, ro.Path, st, AccEdge{Rec: *ro.Edge}, true)
+			}
+		}
 	default:
 		if ro.Edge != nil {
 			h.evalEdge(ch, ro.Path, *ro.Edge, ro.Alt, verdict{known: false})
